@@ -22,24 +22,31 @@ func keyHas(subs ...string) func(string) bool {
 }
 
 func init() {
-	prop("C01", []string{"FILTERED", "MGETSORT", "NOROWDROP", "GETNIL", "BYTESFRESH", "DISPATCH", "TWINPRIM", "PRIMWIRE", "OPMAPS", "ASTIMMUT", "ROWINDEX", "EVALBOTH", "STICKYFLAG", "REORDERGUARD", "FOLDKIND", "FOLDERR", "FOLDFLAGS", "ROWCARRY", "OP2TABLE", "PARSEARGS", "IFACEEQ", "ROWALIAS", "ARGFRESH"},
-		"Structural necessary conditions of C01, for every access path and both iteration modes: FILTERED (a pair leaves a scan only under the true result of the full filter applied to that same pair), NOROWDROP (no loop over a fetched batch drops already-consumed rows), MGETSORT (point reads are returned in sorted key order), GETNIL (a stored pair with an empty value is a pair), BYTESFRESH (evaluation never appends into memory it did not allocate, so stored values come back unmodified), DISPATCH/TWINPRIM/PRIMWIRE/OPMAPS (each operator the user writes is routed, in both modes, to the Go primitive the documentation names, with the same operator literal and operand order; conversion/string functions reach their documented primitives), ASTIMMUT (evaluation does not mutate the expression tree, so repetitions agree). ROWINDEX/ROWCARRY (a vector operator reads row-dependent operands per row, never from a fixed row of the chunk nor from a value computed for an earlier row and carried along), EVALBOTH (vector operators evaluate both operands), STICKYFLAG with FOLDKIND/FOLDERR/FOLDFLAGS/REORDERGUARD (the predicate that is executed is the predicate that was written: the rewriter's structural side conditions, shared with C04). OP2TABLE(query) (the text that is lexed is the text the caller wrote: literals are not rewritten before parsing). PARSEARGS (numbers are read from text with base 10 / 64 bits everywhere), IFACEEQ (no type-strict interface equality or interface-keyed maps in evaluation code), ROWALIAS (no rewritten object shared by all rows of a chunk), ARGFRESH (function bodies do not write into their inputs).",
+	prop("C01", []string{"FILTERED", "MGETSORT", "NOROWDROP", "GETNIL", "BYTESFRESH", "DISPATCH", "TWINPRIM", "PRIMWIRE", "OPMAPS", "ASTIMMUT", "ROWINDEX", "EVALBOTH", "STICKYFLAG", "REORDERGUARD", "FOLDKIND", "FOLDERR", "FOLDFLAGS", "ROWCARRY", "OP2TABLE", "PARSEARGS", "IFACEEQ", "ROWALIAS", "ARGFRESH", "ATOMALG", "RANGEALG", "PREFIXALG", "SCANALG", "SHORTBATCH", "REGIONSTICKY"},
+		"Structural necessary conditions of C01, for every access path and both iteration modes: FILTERED (a pair leaves a scan only under the true result of the full filter applied to that same pair), NOROWDROP (no loop over a fetched batch drops already-consumed rows), MGETSORT (point reads are returned in sorted key order), GETNIL (a stored pair with an empty value is a pair), BYTESFRESH (evaluation never appends into memory it did not allocate, so stored values come back unmodified), DISPATCH/TWINPRIM/PRIMWIRE/OPMAPS (each operator the user writes is routed, in both modes, to the Go primitive the documentation names, with the same operator literal and operand order; conversion/string functions reach their documented primitives), ASTIMMUT (evaluation does not mutate the expression tree, so repetitions agree). ROWINDEX/ROWCARRY (a vector operator reads row-dependent operands per row, never from a fixed row of the chunk nor from a value computed for an earlier row and carried along), EVALBOTH (vector operators evaluate both operands), STICKYFLAG with FOLDKIND/FOLDERR/FOLDFLAGS/REORDERGUARD (the predicate that is executed is the predicate that was written: the rewriter's structural side conditions, shared with C04). OP2TABLE(query) (the text that is lexed is the text the caller wrote: literals are not rewritten before parsing). PARSEARGS (numbers are read from text with base 10 / 64 bits everywhere), IFACEEQ (no type-strict interface equality or interface-keyed maps in evaluation code), ROWALIAS (no rewritten object shared by all rows of a chunk), ARGFRESH (function bodies do not write into their inputs). ATOMALG/RANGEALG/PREFIXALG/SCANALG(sound) (the access path chosen for the WHERE clause covers every pair that satisfies it), SHORTBATCH (no scan ends its stream early with an empty batch). REGIONSTICKY(only-at-end, reset) (a scan marks itself finished only where its cursor or region ended, so no later call is cut short).",
 		"The end-to-end row set needs evaluation of predicates on values; duplicates from repeated/overlapping IN literals and literal-on-the-left comparisons are not structurally decidable (DESIGN.md §6).")
+	propTable["C01"].KeyFilter["REGIONSTICKY"] = keyHas("|only-at-end", "|reset", "|fetch", "|loop")
+	propTable["C01"].KeyFilter["ATOMALG"] = keyHas("|sound", "|interpretable", "|closed")
+	propTable["C01"].KeyFilter["RANGEALG"] = keyHas("|sound", "|interpretable", "|closed")
+	propTable["C01"].KeyFilter["PREFIXALG"] = keyHas("|sound", "|interpretable", "|closed")
+	propTable["C01"].KeyFilter["SCANALG"] = keyHas("|sound", "|interpretable", "|closed")
 	propTable["C01"].KeyFilter["OP2TABLE"] = keyHas("|query|")
 	propTable["C01"].KeyFilter["NOROWDROP"] = keyHas("ScanPlan", "MultiGetPlan", "ProjectionPlan")
 
-	prop("C02", []string{"PLANMAP", "ROUTE", "NARROWONLYKEY", "ROLECHAIN", "FILTERED", "RMGUARD", "NOROWDROP", "GETNIL", "RANGEALG", "STICKYFLAG", "PREFIXALG", "SCANALG", "ATOMALG", "SHORTBATCH"},
-		"Structural necessary conditions of C02: ROUTE (an operator reaches only the region handler its executor semantics justify; anything else is FULL), NARROWONLYKEY (a narrowing region only for atoms on `key`, with bounds taken from the atom's literals), PLANMAP (scan kinds map to the matching plan, ill-formed cases to the full scan, and the access path is not replaced afterwards), ROLECHAIN (start/end/prefix reach Seek and the stop tests in the right roles, inclusive end, nil-guarded), FILTERED (over-approximated regions are harmless because every pair is filtered), RMGUARD (DELETE drops the filter only for pure key sets), NOROWDROP/GETNIL (no consumed row or empty-valued pair is lost on the narrowed paths). STICKYFLAG (an IN list or BETWEEN pair narrows the scan only if every element is a literal; the flag recording that is never set back by a later element). PREFIXALG (the prefix members of the algebra, over all order/prefix structures of the operands: AND keeps every key both operands contain, OR every key of either). SCANALG (the AND/OR combinators themselves over every pair of scan kinds: routing, argument roles and fall-backs). ATOMALG (the atom layer: every operator x operand shape with the literal on either side). SHORTBATCH (batch protocol: a consumer may stop on a short batch only if every producer returns short batches only when exhausted).",
+	prop("C02", []string{"PLANMAP", "ROUTE", "NARROWONLYKEY", "ROLECHAIN", "FILTERED", "RMGUARD", "NOROWDROP", "GETNIL", "RANGEALG", "STICKYFLAG", "PREFIXALG", "SCANALG", "ATOMALG", "SHORTBATCH", "REGIONSTICKY"},
+		"Structural necessary conditions of C02: ROUTE (an operator reaches only the region handler its executor semantics justify; anything else is FULL), NARROWONLYKEY (a narrowing region only for atoms on `key`, with bounds taken from the atom's literals), PLANMAP (scan kinds map to the matching plan, ill-formed cases to the full scan, and the access path is not replaced afterwards), ROLECHAIN (start/end/prefix reach Seek and the stop tests in the right roles, inclusive end, nil-guarded), FILTERED (over-approximated regions are harmless because every pair is filtered), RMGUARD (DELETE drops the filter only for pure key sets), NOROWDROP/GETNIL (no consumed row or empty-valued pair is lost on the narrowed paths). STICKYFLAG (an IN list or BETWEEN pair narrows the scan only if every element is a literal; the flag recording that is never set back by a later element). PREFIXALG (the prefix members of the algebra, over all order/prefix structures of the operands: AND keeps every key both operands contain, OR every key of either). SCANALG (the AND/OR combinators themselves over every pair of scan kinds: routing, argument roles and fall-backs). ATOMALG (the atom layer: every operator x operand shape with the literal on either side). SHORTBATCH (batch protocol: a consumer may stop on a short batch only if every producer returns short batches only when exhausted). REGIONSTICKY(only-at-end, reset) (a scan marks itself finished only where its cursor or region ended, so no later call is cut short).",
 		"intersectionMget/unionMget (Go maps) are outside the abstract interpreter; combinations deeper than one AND/OR are decided compositionally (each level sound over all operand structures, and the domain is closed: no level yields a range open on both sides).")
+	propTable["C02"].KeyFilter["REGIONSTICKY"] = keyHas("|only-at-end", "|reset", "|fetch", "|loop")
 	propTable["C02"].KeyFilter["ATOMALG"] = keyHas("|sound", "|interpretable", "|closed")
 	propTable["C02"].KeyFilter["SCANALG"] = keyHas("|sound", "|interpretable", "|closed")
 	propTable["C02"].KeyFilter["PREFIXALG"] = keyHas("|sound", "|interpretable", "|closed")
 	propTable["C02"].KeyFilter["STICKYFLAG"] = keyHas("FilterOptimizer")
 	propTable["C02"].KeyFilter["NOROWDROP"] = keyHas("ScanPlan", "MultiGetPlan")
 
-	prop("C03", []string{"NOROWDROP", "CONSUMED", "FETCHLOOPEND", "CACHECOPY", "ADJUSTCALL", "ARITY", "LISTCOVER", "BODYKIND", "ASTIMMUT", "DISPATCH", "TWINPRIM", "LIMITGATE", "ERRPROP", "EVALBOTH", "FRESHROWS", "ROWINDEX", "ROWCARRY", "ADJUSTCOVER", "ROWCACHE", "FILTERED", "IFACEEQ", "ROWALIAS", "SHORTBATCH"},
-		"Structural necessary conditions of C03 (agreement of the row and batch twins): DISPATCH/TWINPRIM (both modes route every operator to corresponding helpers reaching the same primitives with the same literals), BODYKIND (row and vector bodies box the same kinds), ARITY (both modes apply both arity tests), LISTCOVER (both modes handle the same list representations), NOROWDROP/CONSUMED/LIMITGATE/FETCHLOOPEND (batch loops neither drop consumed rows, nor emit skipped ones, nor bypass the limit, nor spin), CACHECOPY/ADJUSTCALL/ASTIMMUT (the chunk cache and the tree are not corrupted by in-place vector operators), ERRPROP on both twins of every plan. EVALBOTH (no batch-only short circuit), ROWINDEX/ROWCARRY (no batch-only reuse of row 0 or of an earlier row's operand), FRESHROWS (batch results never alias plan-owned buffers that the next call rewrites). ADJUSTCOVER (no by-position cache entry of the unfiltered chunk survives filtering). ROWCACHE/FILTERED (row mode does not reuse per-row cache entries of another row and returns only filtered pairs, as batch mode does). IFACEEQ/ROWALIAS (no batch-only comparison or sharing shortcut). SHORTBATCH (batch protocol: a consumer may stop on a short batch only if every producer returns short batches only when exhausted).",
+	prop("C03", []string{"NOROWDROP", "CONSUMED", "FETCHLOOPEND", "CACHECOPY", "ADJUSTCALL", "ARITY", "LISTCOVER", "BODYKIND", "ASTIMMUT", "DISPATCH", "TWINPRIM", "LIMITGATE", "ERRPROP", "EVALBOTH", "FRESHROWS", "ROWINDEX", "ROWCARRY", "ADJUSTCOVER", "ROWCACHE", "FILTERED", "IFACEEQ", "ROWALIAS", "SHORTBATCH", "REGIONSTICKY"},
+		"Structural necessary conditions of C03 (agreement of the row and batch twins): DISPATCH/TWINPRIM (both modes route every operator to corresponding helpers reaching the same primitives with the same literals), BODYKIND (row and vector bodies box the same kinds), ARITY (both modes apply both arity tests), LISTCOVER (both modes handle the same list representations), NOROWDROP/CONSUMED/LIMITGATE/FETCHLOOPEND (batch loops neither drop consumed rows, nor emit skipped ones, nor bypass the limit, nor spin), CACHECOPY/ADJUSTCALL/ASTIMMUT (the chunk cache and the tree are not corrupted by in-place vector operators), ERRPROP on both twins of every plan. EVALBOTH (no batch-only short circuit), ROWINDEX/ROWCARRY (no batch-only reuse of row 0 or of an earlier row's operand), FRESHROWS (batch results never alias plan-owned buffers that the next call rewrites). ADJUSTCOVER (no by-position cache entry of the unfiltered chunk survives filtering). ROWCACHE/FILTERED (row mode does not reuse per-row cache entries of another row and returns only filtered pairs, as batch mode does). IFACEEQ/ROWALIAS (no batch-only comparison or sharing shortcut). SHORTBATCH (batch protocol: a consumer may stop on a short batch only if every producer returns short batches only when exhausted). REGIONSTICKY(only-at-end, reset) (a scan marks itself finished only where its cursor or region ended, so no later call is cut short).",
 		"Equality of computed values and the refill arithmetic beyond these clauses need execution.")
+	propTable["C03"].KeyFilter["REGIONSTICKY"] = keyHas("|only-at-end", "|reset", "|fetch", "|loop")
 
 	prop("C04", []string{"FOLDKIND", "FOLDERR", "REORDERGUARD", "FOLDFLAGS", "BODYKIND", "STICKYFLAG", "ASTIMMUT", "ARGFRESH", "PARSEARGS", "ARMTWIN"},
 		"Structural necessary conditions of C04: FOLDKIND (a folded literal node has the kind of the value it was folded from and is built from the typed value, not from text), FOLDERR (folding happens only when evaluation succeeded), REORDERGUARD (re-association only for + and * chains with the same operator inside and outside), BODYKIND (folded function calls box the kind their registry row declares). STICKYFLAG (a call is folded only if every argument is a literal). ASTIMMUT (a folded constant node is not used as mutable scratch space by the evaluator). ARGFRESH/PARSEARGS (a folded constant is not modified by the functions applied to it; literals are parsed with 64 bits). ARMTWIN (a folded text constant is a string where the unfolded value was []byte: both arms of every text conversion behave alike).",
@@ -79,9 +86,10 @@ func init() {
 
 	propTable["C10"].KeyFilter["STICKYFLAG"] = keyHas("ExpressionOptimizer")
 
-	prop("C11", []string{"RMGUARD", "DELKEYS", "MUTSITE", "CHILDVISIT", "LIMITWRAP", "LIMITMAP", "ERRPROP", "NOROWDROP", "CONSUMED", "ARGFRESH", "SHORTBATCH"},
-		"Structural necessary conditions of C11: DELKEYS (BatchDelete receives exactly the keys of the rows fetched in that iteration), MUTSITE(e) (DELETE issues no Put), RMGUARD with CHILDVISIT(Walk) (direct key removal only without LIMIT and without any AND anywhere in the filter; the walk sees every node), LIMITWRAP/LIMITMAP/CONSUMED/NOROWDROP (the limit is applied to the raw pairs, exactly), ERRPROP in execute. ARGFRESH (no function applied in the WHERE clause rewrites the key bytes that are then handed to BatchDelete). SHORTBATCH (batch protocol: a consumer may stop on a short batch only if every producer returns short batches only when exhausted).",
+	prop("C11", []string{"RMGUARD", "DELKEYS", "MUTSITE", "CHILDVISIT", "LIMITWRAP", "LIMITMAP", "ERRPROP", "NOROWDROP", "CONSUMED", "ARGFRESH", "SHORTBATCH", "REGIONSTICKY"},
+		"Structural necessary conditions of C11: DELKEYS (BatchDelete receives exactly the keys of the rows fetched in that iteration), MUTSITE(e) (DELETE issues no Put), RMGUARD with CHILDVISIT(Walk) (direct key removal only without LIMIT and without any AND anywhere in the filter; the walk sees every node), LIMITWRAP/LIMITMAP/CONSUMED/NOROWDROP (the limit is applied to the raw pairs, exactly), ERRPROP in execute. ARGFRESH (no function applied in the WHERE clause rewrites the key bytes that are then handed to BatchDelete). SHORTBATCH (batch protocol: a consumer may stop on a short batch only if every producer returns short batches only when exhausted). REGIONSTICKY(only-at-end, reset) (a scan marks itself finished only where its cursor or region ended, so no later call is cut short).",
 		"Which keys the filter selects is C01/C02/C08.")
+	propTable["C11"].KeyFilter["REGIONSTICKY"] = keyHas("|only-at-end", "|reset", "|fetch", "|loop")
 	propTable["C11"].KeyFilter["MUTSITE"] = keyHas("MUTSITE|e|", "MUTSITE|a|")
 	propTable["C11"].KeyFilter["CHILDVISIT"] = keyHas("|Walk|")
 	propTable["C11"].KeyFilter["ERRPROP"] = keyHas("DeletePlan", "LimitPlan")
